@@ -762,13 +762,18 @@ def obs_c17(c: Ctx):
                 # --- mermaid
                 a2 = dict(a, fmt="mermaid", dup_defs_ok=False)
 
-                def run_mm(s=s, unique=unique, self_=self_):
+                str_mappers = unique and (s + int(self_)) % 2 == 1   # mappers given as format strings
+
+                def run_mm(s=s, unique=unique, self_=self_, str_mappers=str_mappers):
                     buf = _io.StringIO()
-                    mapper = lambda nd: f"#{c.nid(nd)}#"  # noqa: E731
+                    kw = {"node_mapper": (lambda nd: f"#{c.nid(nd)}#")}
+                    if str_mappers:
+                        kw = {"node_mapper": "#D{node.data_id}#",
+                              "edge_mapper": '{from_id}-- "{to_node.kind}" -->{to_id}' if fl.typed else "{from_id} --> {to_id}"}
                     if s == 0:
-                        tree.to_mermaid_flowchart(buf, add_root=self_, unique_nodes=unique, node_mapper=mapper)
+                        tree.to_mermaid_flowchart(buf, add_root=self_, unique_nodes=unique, **kw)
                     else:
-                        c.b.nodes[s].to_mermaid_flowchart(buf, add_self=self_, unique_nodes=unique, node_mapper=mapper)
+                        c.b.nodes[s].to_mermaid_flowchart(buf, add_self=self_, unique_nodes=unique, **kw)
                     return buf.getvalue()
 
                 def norm_mm(text, unique=unique, s=s, self_=self_):
@@ -794,6 +799,20 @@ def obs_c17(c: Ctx):
                                 nodes.append(key)
                                 if s != 0 and m.group(2) in name_to_d:
                                     names.append([key, name_to_d[m.group(2)]])
+                                continue
+                            m = _re.match(r'^(\d+)\("#D(.*)#"\)$', ln)
+                            if m:   # format-string mapper: the graph node is labelled with its data_id
+                                tokd = m.group(2)
+                                try:
+                                    real = int(tokd)
+                                except ValueError:
+                                    real = tokd
+                                key = fl.model_did(real)
+                                idx_key[m.group(1)] = key
+                                nodes.append(key)
+                                for i2 in range(1, n + 1):
+                                    if st["did"][i2 - 1] == key:
+                                        names.append([key, st["dat"][i2 - 1]])
                                 continue
                             m = _re.match(r'^(\d+)\("#(-?\d+)#"\)$', ln)
                             if m:
